@@ -6,7 +6,8 @@ regex rules, loop invariants by loop ordinal); each is counted and reported.
 
 Directive grammar (each on its own line, inside the template):
   //@extract id=<id> file=<path under /repo> item="<fn NAME | struct NAME | enum NAME | const NAME | type NAME>"
-             [within="<impl header prefix>"] [props=C01+C03]
+             [within="<impl header prefix>"] [props=C01+C03] [closure="<regex>"]
+             (closure=: lift the block closure that follows the regex inside that fn; //@sig names what it captures)
   //@expect <original signature, whitespace-normalised, up to the body>   (lost anchor if different)
   //@sig <replacement signature>                                          (rules X1/X3/X4/X6/X7)
   //@contract            following lines (until next //@) go between signature and body
@@ -297,6 +298,18 @@ def generate(unit):
         src, mask = cache[path]
         item_start, sig_start, b, end = locate_item(src, mask, kv["item"], kv.get("within"))
         kind = kv["item"].split()[0]
+        if kv.get("closure"):
+            # closure lifting: the block of the closure that follows /closure-regex/ inside the located fn
+            # becomes the body of a function whose signature the unit gives (//@sig); what it captures
+            # become parameters. //@expect is checked against the closure header (`move |x|`).
+            cm = rscan.find_code(src, mask, kv["closure"] + r"(?=(?:move\s+)?\|)", b, end)
+            if not cm:
+                raise Undecided(f"lost anchor: no closure after /{kv['closure']}/ in {kv['item']} of {kv['file']}")
+            hm = re.compile(r"(?:move\s+)?\|[^|]*\|\s*").match(src, cm.end())
+            if not hm or src[hm.end()] != "{":
+                raise Undecided(f"lost anchor: closure after /{kv['closure']}/ in {kv['item']} is not a block closure")
+            sig_start, b = cm.end(), hm.end()
+            end = rscan.match_brace(src, mask, b) + 1
         real_sig = rscan.norm(src[sig_start:b])
         if blk["expect"] and real_sig not in [rscan.norm(e) for e in blk["expect"]]:
             raise Undecided(f"lost anchor: signature of {kv['item']} in {kv['file']} is `{real_sig}`, unit expects `{' | '.join(rscan.norm(e) for e in blk['expect'])}`")
